@@ -114,11 +114,18 @@ impl Report {
         let known = load_known(&vdir, &self.property);
         let mut new_viol: Vec<(&String, &crate::engine::VRec)> = Vec::new();
         let mut known_hit: Vec<(String, String)> = Vec::new();
+        // which signatures each known finding absorbed in this run (for auditing that an entry
+        // excuses only what it describes)
+        let mut known_sigs: std::collections::BTreeMap<String, Vec<String>> = Default::default();
         for (sig, rec) in &self.total.viols {
             match known.iter().find(|k| k.matches(sig)) {
                 Some(k) => {
                     if !known_hit.iter().any(|(s, _)| s == &k.id) {
                         known_hit.push((k.id.clone(), k.what.clone()));
+                    }
+                    let v = known_sigs.entry(k.id.clone()).or_default();
+                    if v.len() < 300 {
+                        v.push(sig.clone());
                     }
                 }
                 None => new_viol.push((sig, rec)),
@@ -193,6 +200,7 @@ impl Report {
             "bounds": self.bounds,
             "explorations": self.parts,
             "known_findings_reproduced": known_hit.iter().map(|(id, _)| id.clone()).collect::<Vec<_>>(),
+            "known_finding_signatures_matched": known_sigs,
             "new_violation_signatures": new_viol.iter().map(|(s, _)| s.to_string()).collect::<Vec<_>>(),
             "replays": replay_paths,
             "trusted_base": self.trusted_base,
